@@ -12,8 +12,10 @@
        out-of-fuel result [EStack] that stands for the stack overflow), ADF_Link / ADF_Get_Link_Path (the
        "file>path" payload and its split at the first separator), ADF_Is_Link,
      * the bookkeeping of implicitly opened files (ADF_file[].in_use / links, ADFI_link_add, ADFI_close_file),
-     * the ADFH resolution of  ADFH.c : open_link / open_node / parse_path / ADFH_Get_Node_ID  (exactly ONE hop through
-       the hidden " link" member, resolved by libhdf5 over raw groups; files found by libhdf5, not by cgio_find_file).
+     * the ADFH resolution of  ADFH.c : open_link / open_link_1 / open_node / parse_path / ADFH_Get_Node_ID  (each hop
+       goes through the hidden " link" member, resolved by libhdf5 over raw groups; open_link repeats the hop while it
+       lands on a link node, up to ADF_MAXIMUM_LINK_DEPTH; files found by libhdf5, not by cgio_find_file).
+   Definitions that changed with a repair in /repo take a [ver] argument: Cur = the code now, Old = before the repair.
 
    Executable definitions only; proofs in LinksProofs.v. *)
 From Coq Require Import ZArith List Bool Lia.
@@ -143,6 +145,16 @@ Inductive res (A : Type) := Ok (a : A) | Err (e : err).
 Arguments Ok {A} a.
 Arguments Err {A} e.
 
+(* Two transcriptions live side by side.  [Cur] is the code as it is in /repo now; [Old] is the code before the repairs
+   9d19299 (rename clears the cache), 8281ca0 (nesting bound in ADFI_chase_link), 909ac4d (ADFI_close_file releases
+   linked files only with the last reference) and fff8c32 (ADFH open_link follows chains) -- kept only for the
+   historical *_old_refuted witnesses. *)
+Inductive ver := Old | Cur.
+(* what a resolution answers when the nesting of ADFI_chase_link <-> ADF_Get_Node_ID runs out: Old had no bound (the
+   stack overflowed, EStack); Cur counts the activations in a static variable and answers LINKS_TOO_DEEP at 100 *)
+Definition oob (v : ver) : err := match v with Old => EStack | Cur => ETooDeep end.
+Definition NEST_LIMIT : nat := 100.                      (* ADF_MAXIMUM_LINK_DEPTH activations *)
+
 (* what a resolution threads: the one-entry cache (None <-> last_link_ID = 0.0) and a write-only log of the
    ADFI_link_add(from file, to file) calls it made (consumed by the open-file bookkeeping below) *)
 Record rs := mkRs { r_cache : option (nid * nid); r_log : list (bytes * bytes) }.
@@ -228,13 +240,15 @@ Fixpoint chase_loop (ch : chaser) (d : disk) (e : env) (n : nat) (depth : Z) (s 
 
 Definition LOOP_FUEL : nat := 101.
 
-(* ADFI_chase_link.  [uc] = false switches the cache off (never hit, never filled): "full resolution". *)
-Fixpoint chase (uc : bool) (fuel : nat) (d : disk) (e : env) (s : rs) (i : nid) : cres :=
+(* ADFI_chase_link.  [uc] = false switches the cache off (never hit, never filled): "full resolution".
+   [fuel] is the number of nested activations still allowed: for Cur a top-level call has NEST_LIMIT (the wrapper
+   refuses when its static counter has reached ADF_MAXIMUM_LINK_DEPTH); for Old it is a stand-in for the C stack. *)
+Fixpoint chase (v : ver) (uc : bool) (fuel : nat) (d : disk) (e : env) (s : rs) (i : nid) : cres :=
   match fuel with
-  | O => (s, Err EStack)
+  | O => (s, Err (oob v))
   | S f =>
       let body :=
-        let '(s', r) := chase_loop (chase uc f d e) d e LOOP_FUEL 0 s i in
+        let '(s', r) := chase_loop (chase v uc f d e) d e LOOP_FUEL 0 s i in
         match r with
         | Ok l => ((if uc && negb (nid_eqb l i) then mkRs (Some (i, l)) (r_log s') else s'), Ok l)
         | Err x => (s', Err x)
@@ -248,9 +262,9 @@ Fixpoint chase (uc : bool) (fuel : nat) (d : disk) (e : env) (s : rs) (i : nid) 
       end
   end.
 
-Definition resolve (fuel : nat) (d : disk) (e : env) (i : nid) : res nid := snd (chase false fuel d e rs0 i).
-Definition lookup (uc : bool) (fuel : nat) (d : disk) (e : env) (s : rs) (pid : nid) (name : bytes) : cres :=
-  get_node_id (chase uc fuel d e) d s pid name.
+Definition resolve (v : ver) (fuel : nat) (d : disk) (e : env) (i : nid) : res nid := snd (chase v false fuel d e rs0 i).
+Definition lookup (v : ver) (uc : bool) (fuel : nat) (d : disk) (e : env) (s : rs) (pid : nid) (name : bytes) : cres :=
+  get_node_id (chase v uc fuel d e) d s pid name.
 
 (* ---- reading ------------------------------------------------------------------------------------------------------- *)
 Inductive ans := AErr (e : err) | AVal (r : result).
@@ -273,7 +287,7 @@ Definition node_attr (d : disk) (l : nid) (what : Z) : result :=
   end.
 
 (* ADF_Get_Name / ADF_Is_Link / ADF_Get_Link_Path do not chase; everything else does *)
-Definition adf_get (uc : bool) (fuel : nat) (d : disk) (e : env) (s : rs) (i : nid) (what : Z) : rs * ans :=
+Definition adf_get (v : ver) (uc : bool) (fuel : nat) (d : disk) (e : env) (s : rs) (i : nid) (what : Z) : rs * ans :=
   match node_at d i with
   | None => (s, AErr EOther)
   | Some r =>
@@ -282,7 +296,7 @@ Definition adf_get (uc : bool) (fuel : nat) (d : disk) (e : env) (s : rs) (i : n
       else if what =? 5 then
         (s, match adf_link_of r with Some (f, p) => AVal (RLink f p) | None => AErr EOther end)
       else
-        let '(s', rr) := chase uc fuel d e s i in
+        let '(s', rr) := chase v uc fuel d e s i in
         match rr with
         | Ok l => (s', AVal (node_attr d l what))
         | Err x => (s', AErr x)
@@ -328,10 +342,11 @@ Definition slot_hop (sl : slots) (ev : bytes * bytes) : slots :=
   end.
 Definition slots_apply (sl : slots) (log : list (bytes * bytes)) : slots := fold_left slot_hop log sl.
 
-(* ADFI_close_file: closes everything the file links to FIRST (whatever its own count), then drops one reference.
-   The recursion has no counter in C: fuel, and None = stack overflow.  The bool says whether some file really closed
-   (ADFI_stack_control(CLEAR_STK) => last_link_ID = 0). *)
-Fixpoint slot_close (fuel : nat) (sl : slots) (k : Z) : option (slots * bool) :=
+(* ADFI_close_file.  Old: closes everything the file links to FIRST -- whatever its own count -- then drops one
+   reference.  Cur (909ac4d): drops one reference; only when that was the last one are the linked files released, then
+   the file itself is closed.  The recursion has no counter in C: fuel, and None = it never returns.  The bool says
+   whether some file really closed (ADFI_stack_control(CLEAR_STK) => last_link_ID = 0). *)
+Fixpoint slot_close (v : ver) (fuel : nat) (sl : slots) (k : Z) : option (slots * bool) :=
   match fuel with
   | O => None
   | S f =>
@@ -340,15 +355,26 @@ Fixpoint slot_close (fuel : nat) (sl : slots) (k : Z) : option (slots * bool) :=
       let step := fun (acc : option (slots * bool)) (l : Z) =>
         match acc with
         | None => None
-        | Some (s1, b1) => match slot_close f s1 l with Some (s2, b2) => Some (s2, b1 || b2) | None => None end
+        | Some (s1, b1) => match slot_close v f s1 l with Some (s2, b2) => Some (s2, b1 || b2) | None => None end
         end in
-      match fold_left step (sl_links x) (Some (sl, false)) with
-      | None => None
-      | Some (s1, b1) =>
-          let y := nthZ s1 k free_slot in
-          let u := sl_use y - 1 in
-          if u =? 0 then Some (updZ s1 k free_slot, true)
-          else Some (updZ s1 k (mkSl (sl_name y) u (sl_links y)), b1)
+      match v with
+      | Old =>
+          match fold_left step (sl_links x) (Some (sl, false)) with
+          | None => None
+          | Some (s1, b1) =>
+              let y := nthZ s1 k free_slot in
+              let u := sl_use y - 1 in
+              if u =? 0 then Some (updZ s1 k free_slot, true)
+              else Some (updZ s1 k (mkSl (sl_name y) u (sl_links y)), b1)
+          end
+      | Cur =>
+          let u := sl_use x - 1 in                                   (* index = in_use - 1, before anything else *)
+          if u =? 0 then
+            match fold_left step (sl_links x) (Some (sl, false)) with
+            | None => None
+            | Some (s1, _) => Some (updZ s1 k free_slot, true)
+            end
+          else Some (updZ sl k (mkSl (sl_name x) u (sl_links x)), false)
       end
   end.
 
@@ -381,7 +407,7 @@ Definition clear_if (b : bool) (c : option (nid * nid)) : option (nid * nid) := 
 Definition file_open (s : ast) (f : bytes) : bool :=
   match slot_find (a_slots s) f 0 with Some _ => true | None => false end.
 
-Definition adf_mutate (s : ast) (f : bytes) (o : op) : ast * result :=
+Definition adf_mutate (v : ver) (s : ast) (f : bytes) (o : op) : ast * result :=
   if negb (file_open s f) then (s, RErr) else                  (* ADF_FILE_NOT_OPENED *)
   match disk_get (a_disk s) f with
   | None => (s, RErr)
@@ -422,7 +448,11 @@ Definition adf_mutate (s : ast) (f : bytes) (o : op) : ast * result :=
           | OWriteAll u _ | OWriteBlock u _ _ _ | OWriteSel u _ _ _ _ =>
               (mkAst d' (a_cache s) (a_slots s) (a_caps s)
                      (if has_chunk (a_chunks s) (f, u) then a_chunks s else (f, u) :: a_chunks s) (a_env s), r)
-          | _ => (with_disk s d', r)                        (* rename, label: nothing is cleared *)
+          | ORename _ _ _ =>
+              (* ADF_Put_Name rewrites the child's sub-node table entry; since 9d19299 ADFI_write_sub_node_table_entry
+                 ends with last_link_ID = 0.0 *)
+              (mkAst d' (match v with Cur => None | Old => a_cache s end) (a_slots s) (a_caps s) (a_chunks s) (a_env s), r)
+          | _ => (with_disk s d', r)                        (* label, queries: nothing is cleared *)
           end
       end
   end.
@@ -450,11 +480,11 @@ Definition adf_open (s : ast) (f : bytes) (create : bool) : ast * result :=
   end.
 
 (* cgio_close_file; None = the close recursion never returns *)
-Definition adf_close (fuel : nat) (s : ast) (f : bytes) : option (ast * result) :=
+Definition adf_close (v : ver) (fuel : nat) (s : ast) (f : bytes) : option (ast * result) :=
   match slot_find (a_slots s) f 0 with
   | None => Some (s, RErr)
   | Some k =>
-      match slot_close fuel (a_slots s) k with
+      match slot_close v fuel (a_slots s) k with
       | None => None
       | Some (sl, closed) =>
           Some (mkAst (a_disk s) (clear_if closed (a_cache s)) sl (a_caps s) (a_chunks s) (a_env s), ROk)
@@ -465,12 +495,12 @@ Definition commit (s : ast) (x : rs) : ast :=
   mkAst (a_disk s) (r_cache x) (slots_apply (a_slots s) (r_log x)) (a_caps s) (a_chunks s) (a_env s).
 
 (* an id is usable only while its file is open in the process (ADFI_ID_2_file_block_offset: ADF_FILE_NOT_OPENED) *)
-Definition adf_read (fuel : nat) (s : ast) (i : nid) (what : Z) : ast * ans :=
+Definition adf_read (v : ver) (fuel : nat) (s : ast) (i : nid) (what : Z) : ast * ans :=
   if negb (file_open s (fst i)) then (s, AErr EOther) else
-  let '(x, a) := adf_get true fuel (a_disk s) (a_env s) (mkRs (a_cache s) []) i what in (commit s x, a).
-Definition adf_lookup (fuel : nat) (s : ast) (pid : nid) (name : bytes) : ast * res nid :=
+  let '(x, a) := adf_get v true fuel (a_disk s) (a_env s) (mkRs (a_cache s) []) i what in (commit s x, a).
+Definition adf_lookup (v : ver) (fuel : nat) (s : ast) (pid : nid) (name : bytes) : ast * res nid :=
   if negb (file_open s (fst pid)) then (s, Err EOther) else
-  let '(x, r) := lookup true fuel (a_disk s) (a_env s) (mkRs (a_cache s) []) pid name in (commit s x, r).
+  let '(x, r) := lookup v true fuel (a_disk s) (a_env s) (mkRs (a_cache s) []) pid name in (commit s x, r).
 Definition adf_setenv (s : ast) (e : env) : ast :=
   mkAst (a_disk s) (a_cache s) (a_slots s) (a_caps s) (a_chunks s) e.
 
@@ -491,8 +521,8 @@ Fixpoint raw_walk (d : disk) (cur : nid) (toks : list bytes) : option nid :=
   | t :: rest => match child_named d cur t with Some k => raw_walk d k rest | None => None end
   end.
 
-(* open_link: ONE hop through the " link" member *)
-Definition h5_open_link (d : disk) (i : nid) : res nid :=
+(* open_link_1 (the whole of open_link before fff8c32): ONE hop through the " link" member *)
+Definition h5_open_link_1 (d : disk) (i : nid) : res nid :=
   match node_at d i with
   | None => Err EOther
   | Some r =>
@@ -509,8 +539,29 @@ Definition h5_open_link (d : disk) (i : nid) : res nid :=
       end
   end.
 
-(* parse_path: component by component from the root; a link met before the last component is opened (one hop) *)
-Fixpoint h5_parse (d : disk) (cur : nid) (toks : list bytes) : res nid :=
+Definition h5_is_link (d : disk) (l : nid) : bool :=
+  match node_at d l with Some r => is_link r | None => false end.
+
+(* the while loop of open_link since fff8c32: [l] is what open_link_1 returned; while it is itself a link,
+   ++depth >= ADF_MAXIMUM_LINK_DEPTH => LINKS_TOO_DEEP, else one more hop.  [n] is Coq fuel (100 always suffices). *)
+Fixpoint h5_follow (n : nat) (depth : Z) (d : disk) (l : nid) : res nid :=
+  match n with
+  | O => Err EStack
+  | S n' =>
+      if h5_is_link d l then
+        if depth + 1 >=? ADF_MAXIMUM_LINK_DEPTH then Err ETooDeep
+        else match h5_open_link_1 d l with Ok l' => h5_follow n' (depth + 1) d l' | Err x => Err x end
+      else Ok l
+  end.
+
+Definition h5_open_link (v : ver) (d : disk) (i : nid) : res nid :=
+  match v with
+  | Old => h5_open_link_1 d i
+  | Cur => match h5_open_link_1 d i with Ok l => h5_follow 100 0 d l | Err x => Err x end
+  end.
+
+(* parse_path: component by component from the root; a link met before the last component is opened *)
+Fixpoint h5_parse (v : ver) (d : disk) (cur : nid) (toks : list bytes) : res nid :=
   match toks with
   | [] => Ok cur
   | t :: rest =>
@@ -519,16 +570,16 @@ Fixpoint h5_parse (d : disk) (cur : nid) (toks : list bytes) : res nid :=
       | Some k =>
           match rest with
           | [] => Ok k
-          | _ :: _ => match h5_open_link d k with Ok l => h5_parse d l rest | Err x => Err x end
+          | _ :: _ => match h5_open_link v d k with Ok l => h5_parse v d l rest | Err x => Err x end
           end
       end
   end.
 
-Definition h5_lookup (d : disk) (pid : nid) (name : bytes) : res nid :=
+Definition h5_lookup (v : ver) (d : disk) (pid : nid) (name : bytes) : res nid :=
   if lenZ name =? 0 then Err ENotFound else
-  if hd 0 name =? 47 then h5_parse d (root_of pid) (tokens name)
+  if hd 0 name =? 47 then h5_parse v d (root_of pid) (tokens name)
   else
-    match h5_open_link d pid with                      (* identity on a node that is not a link *)
+    match h5_open_link v d pid with                      (* identity on a node that is not a link *)
     | Err x => Err x
     | Ok l => match raw_walk d l (tokens name) with Some t => Ok t | None => Err ENotFound end
     end.
@@ -547,14 +598,14 @@ Definition h5_raw_attr (d : disk) (l : nid) (what : Z) : result :=
       else node_attr d l what
   end.
 
-Definition h5_get (d : disk) (i : nid) (what : Z) : ans :=
+Definition h5_get (v : ver) (d : disk) (i : nid) (what : Z) : ans :=
   match node_at d i with
   | None => AErr EOther
   | Some r =>
       if what =? 0 then AVal (RBytes (n_name r))
       else if what =? 4 then AVal (RInt (if is_link r then 1 else 0))
       else if what =? 5 then match n_link r with Some (f, p) => AVal (RLink f p) | None => AErr EOther end
-      else match h5_open_link d i with Ok l => AVal (h5_raw_attr d l what) | Err x => AErr x end
+      else match h5_open_link v d i with Ok l => AVal (h5_raw_attr d l what) | Err x => AErr x end
   end.
 
 Definition h5_mutate (d : disk) (f : bytes) (o : op) : disk * result :=
